@@ -4,6 +4,7 @@
 // test.  Validated by Trace_ColorBase.tla.
 #include <boost/gil.hpp>
 #include <boost/mp11.hpp>
+#include <algorithm>
 #include "lib/trace.hpp"
 
 namespace gil = boost::gil;
@@ -68,7 +69,7 @@ template <class BF, class L, unsigned... Cs> struct MPacked {          // packed
 };
 template <class BF, class L, int... Cs> struct MBits {                 // bit_aligned_pixel_reference at bit offset 3 of a byte buffer
     using obj_t = gil::bit_aligned_pixel_reference<BF, mp::mp_list_c<int, Cs...>, L, true>; using value_t = typename obj_t::value_type;
-    static constexpr int n = sizeof...(Cs); static constexpr int maxv = 15;
+    static constexpr int n = sizeof...(Cs); static constexpr int maxv = (1 << std::min({Cs...})) - 1;
     unsigned char buf[8]; obj_t r; MBits() : buf{0xAA, 0x55, 0xAA, 0x55, 0xAA, 0x55, 0xAA, 0x55}, r(buf, 3) {} MBits(const MBits&) = delete;
     obj_t& ref() { return r; }
     static std::vector<int> cs() { return {Cs...}; }
@@ -230,6 +231,12 @@ int main(int argc, char** argv) {
     using PK_rgb = MPacked<uint16_t, gil::rgb_layout_t, 4, 4, 4>; using PK_bgr = MPacked<uint16_t, gil::bgr_layout_t, 4, 4, 4>;
     using BA_rgb = MBits<uint32_t, gil::rgb_layout_t, 4, 4, 4>; using BA_bgr = MBits<uint32_t, gil::bgr_layout_t, 4, 4, 4>;
     using PK4 = mp::mp_list<PK_rgb, PK_bgr, BA_rgb, BA_bgr>;
+    // channels that start in a later byte than the (unaligned) pixel: 2-3-2 and 3-3-3 at bit offset 3
+    using BA_232r = MBits<uint16_t, gil::rgb_layout_t, 2, 3, 2>; using BA_232b = MBits<uint16_t, gil::bgr_layout_t, 2, 3, 2>;
+    using BA_333r = MBits<uint16_t, gil::rgb_layout_t, 3, 3, 3>; using BA_333b = MBits<uint16_t, gil::bgr_layout_t, 3, 3, 3>;
+    using BA7 = mp::mp_list<BA_232r, BA_232b>; using BA9 = mp::mp_list<BA_333r, BA_333b>;
+    for_pairs<BA7, BA7>([&](auto a, auto b) { assign_pair<typename decltype(a)::type, typename decltype(b)::type>(); });
+    for_pairs<BA9, BA9>([&](auto a, auto b) { assign_pair<typename decltype(a)::type, typename decltype(b)::type>(); });
     for_pairs<PK4, PK4>([&](auto a, auto b) { assign_pair<typename decltype(a)::type, typename decltype(b)::type>(); });
     using PKa = MPacked<uint16_t, gil::rgba_layout_t, 4, 4, 4, 4>; using PKb = MPacked<uint16_t, gil::abgr_layout_t, 4, 4, 4, 4>; using PKc = MPacked<uint16_t, gil::argb_layout_t, 4, 4, 4, 4>;
     using BAa = MBits<uint32_t, gil::bgra_layout_t, 4, 4, 4, 4>;
@@ -241,6 +248,7 @@ int main(int argc, char** argv) {
     access_model<MPixel<gil::cmyk_layout_t>>(); access_model<MPixel<gil::gray_layout_t>>(); access_model<MPixel<gil::devicen_layout_t<4>>>();
     access_model<MPlanar3<gil::rgb_t>>(); access_model<MPlanar4<gil::rgba_t>>();
     access_model<PK_rgb>(); access_model<PK_bgr>(); access_model<BA_rgb>(); access_model<BA_bgr>(); access_model<PKa>(); access_model<PKb>(); access_model<PKc>(); access_model<BAa>();
+    access_model<BA_232r>(); access_model<BA_232b>(); access_model<BA_333r>(); access_model<BA_333b>();
     // static algorithms over triples of layouts
     for_pairs<RGB6, RGB6>([&](auto a, auto b) { static_ops<typename decltype(a)::type, typename decltype(b)::type, rgbL<1,2,0>>(); });
     for_pairs<RGBA4, RGBA4>([&](auto a, auto b) { static_ops<typename decltype(a)::type, typename decltype(b)::type, rgbaL<2,0,3,1>>(); });
